@@ -157,6 +157,13 @@ def _check_own(run):
     mf = next((f for f, t in init.fields.items() if t == mp), None)
     df = next((f for f, t in init.fields.items() if t == dp), None)
     run.need(mf is not None, "metric is not stored in a field")
+    if df is None:
+        # the flag may be kept in another form (a member of an enumeration picked by it, a strategy object): how
+        # __call__ reads that form back is not followed -- no verdict
+        derived = [f for f, t in init.fields.items()
+                   if dp in ir.subterms(t) and any(x[0] in ("enum", "new", "closure", "partial") for x in ir.subterms(t))]
+        run.need(not derived, f"the dict_input_metric argument is kept in a derived form (self.{derived[0] if derived else ''}); "
+                              f"how __call__ reads it back is not decided")
     run.check(df is not None, "AGREE", "init.flag", f"{init.path}:{init.fn.lineno}", f"{CLS}.__init__", "dict flag field",
               "the dict_input_metric argument is not stored unchanged", f"self.{df} = {pnames[1]}")
     # ---- SIGN: the factor the metric's value is multiplied with, traced back to the constructor ---------------
